@@ -7,6 +7,7 @@ import (
 	"bufio"
 	"fmt"
 	"io"
+	"os"
 	"os/exec"
 	"strconv"
 	"strings"
@@ -59,6 +60,11 @@ func NewSolver(name string, timeoutMs int) (*Solver, error) {
 		return nil, err
 	}
 	s := &Solver{name: name, cmd: cmd, in: in, out: bufio.NewReaderSize(out, 1<<16), timeout: timeoutMs}
+	if dir := os.Getenv("VERIF_SMTLOG"); dir != "" {
+		if f, err := os.Create(fmt.Sprintf("%s/solver-%d.smt2", dir, cmd.Process.Pid)); err == nil {
+			s.log = f
+		}
+	}
 	s.Reset()
 	return s, nil
 }
@@ -173,6 +179,9 @@ func (s *Solver) Check(tc *TermCtx, extra *Term, keep bool) (SatResult, string) 
 	}
 	r, msg := s.readAnswer()
 	s.Time += time.Since(start)
+	if d := time.Since(start); d > 5*time.Second && slowQueryLog {
+		fmt.Fprintf(os.Stderr, "[slow query %.1fs -> %s]\n", d.Seconds(), r)
+	}
 	s.Queries++
 	switch r {
 	case ResSat:
